@@ -1,5 +1,5 @@
 (* C08 — Clone is a deep copy that shares no mutable container with its source. *)
-From Anytype Require Import Base FloatBits Value Equality Heap HeapProofs CloneProofs.
+From Anytype Require Import Base FloatBits Value Equality Heap HeapProofs CloneProofs CloneHistory.
 Local Open Scope nat_scope.
 
 (* [clone_val] transcribes the two copy() methods; [reify] reads a heap value as a pure tree (None = cyclic / dangling);
@@ -35,6 +35,15 @@ Theorem C08_independent : forall f h v h' v' id c f2, heap_wf h -> ref_ok h v ->
   (Reach h' v' id -> reify f2 (upd h' id c) v = reify f2 h' v) /\
   (Reach h' v id -> reify f2 (upd h' id c) v' = reify f2 h' v').
 Proof. exact clone_independent_step. Qed.
+(* the history clause: ANY later sequence of cell writes and allocations confined to one side (every mutator of the model is such a
+   sequence: it writes cells reachable from its receiver and allocates new ones) leaves the other side's tree unchanged, and
+   keeps its set of reachable containers, so the statement applies again to any further history *)
+Theorem C08_history : forall f h v h' v' steps f2, heap_wf h -> ref_ok h v -> clone_val f h v = Some (h', v') ->
+  (run_local (fun i => length h <= i) h' steps ->
+     reify f2 (run_steps h' steps) v = reify f2 h' v /\ (forall r, Reach (run_steps h' steps) v r <-> Reach h' v r)) /\
+  (run_local (fun i => i < length h) h' steps ->
+     reify f2 (run_steps h' steps) v' = reify f2 h' v' /\ (forall r, Reach (run_steps h' steps) v' r <-> Reach h' v' r)).
+Proof. exact clone_history_independent_full. Qed.
 Theorem C08_wf_preserved : forall f h v h' v', heap_wf h -> ref_ok h v -> clone_val f h v = Some (h', v') -> heap_wf h' /\ ref_ok h' v'.
 Proof. exact clone_wf. Qed.
 
@@ -62,4 +71,5 @@ Print Assumptions C08_fresh.
 Print Assumptions C08_disjoint.
 Print Assumptions C08_reify_frame.
 Print Assumptions C08_independent.
+Print Assumptions C08_history.
 Print Assumptions C08_wf_preserved.
